@@ -1,6 +1,7 @@
 import RSocketModel.Props.C09
 import RSocketModel.Engine.WireLegal
 import RSocketModel.Props.C05
+import RSocketModel.Proofs.CreditTerminal
 /-!
 # C08 — Frames emitted are legal RSocket for the emitter's role  (**partial**)
 
@@ -299,3 +300,47 @@ theorem c08_wire_order_is_queue_order (evs : List (SendQueue.Ev (Frame × Nat)))
   SendQueue.c05_drained_exact evs h hq sid
 
 end RSocketModel.Engine
+
+/-! ### the library's own stream sources behind a responder (`Credit.lean`) -/
+namespace RSocketModel.Credit
+
+variable {α : Type}
+
+/-- **Nothing after the terminal signal, at the source.** For every source (any elements, flagging
+its last element complete or not, failing or not) and every interleaving of credit, producer,
+feeder and cancel events: once the subscriber (the endpoint's sender of PAYLOAD / COMPLETE / ERROR
+frames) has been given a terminal signal, no later event gives it anything more - no element and no
+second terminal signal (in particular no ERROR after an element that was flagged complete). -/
+theorem c08_source_nothing_after_terminal (src : List α) (f e : Bool) (evs evs' : List Ev)
+    (ht : (run (init src f e) evs).terminal ≠ none) :
+    (run (init src f e) (evs ++ evs')).emitted = (run (init src f e) evs).emitted ∧
+    (run (init src f e) (evs ++ evs')).terminal = (run (init src f e) evs).terminal := by
+  have hrun : run (init src f e) (evs ++ evs') = run (run (init src f e) evs) evs' := by
+    simp [run, List.foldl_append]
+  rw [hrun]
+  exact run_after_terminal _ (tinv_run (init src f e) evs (tinv_init src f e)) ht evs'
+
+/-- the producer stops with the item that ends the stream: a source that flags its last element
+pulls nothing further from the generator (so a generator that would raise there is never resumed) -/
+theorem c08_source_stops_at_flagged_element (s : State α) (hinv : TInv s) (x : α) (hs : s.src = [x]) (hf : s.flagged = true)
+    (hc : s.cancelled = false) (hd : s.producerDone = false) (hcur : s.cur ≠ 0) (evs : List Ev) :
+    (run (step s .produce) evs).src = [] ∧ (run (step s .produce) evs).producerDone = true ∧
+    ∀ i ∈ (run (step s .produce) evs).outQ, i ≠ .error := by
+  have h0 : (step s .produce).producerDone = true ∧ (step s .produce).src = [] ∧
+      (∀ i ∈ (step s .produce).outQ, i ∈ s.outQ ∨ i = .elem x true) := by
+    simp [step, hc, hd, hcur, hs, hf]
+  obtain ⟨g1, g2, g3⟩ := run_done (step s .produce) h0.1 evs
+  refine ⟨g2.trans h0.2.1, g1, fun i hi => ?_⟩
+  rcases h0.2.2 i (g3 i hi) with h | h
+  · intro he
+    have := (hinv.1 hd).1 i h
+    rw [he] at this
+    simp [Item.isTerminal] at this
+  · rw [h]; simp
+
+/-- Non-vacuity: a two-element source that flags its last element and would fail afterwards: the failure is never produced. -/
+example : (run (init [1, 2] true true) [.request 5, .produce, .produce, .feed, .produce, .feed, .produce, .feed, .produce]).terminal = some true
+    ∧ (run (init [1, 2] true true) [.request 5, .produce, .produce, .feed, .produce, .feed, .produce, .feed, .produce]).emitted = [1, 2]
+    ∧ (run (init [1, 2] true true) [.request 5, .produce, .produce, .feed, .produce, .feed, .produce, .feed, .produce]).outQ = [] := by decide
+
+end RSocketModel.Credit
